@@ -2,6 +2,7 @@ package main
 
 import (
 	"fmt"
+	"runtime"
 	"time"
 
 	"github.com/33cn/chain33/queue"
@@ -79,21 +80,22 @@ func (e *exec) do(op Op, v *view) bool {
 		}()
 		out := "None"
 		hum := "BLOCKED"
-		select {
-		case r := <-ch:
+		if r, ok := awaitCall(e, ch, op.Mode > 0); ok {
 			out = "(Some " + sresTerm(r) + ")"
 			hum = sresTerm(r)
 			if r.err == nil && !r.panicked {
 				v.status[op.O] = 2
 				e.nontriv = true
-				e.sentTo[e.topicOf(m)]++
 			}
-		case <-time.After(blockWait):
+		} else {
 			e.pend = append(e.pend, &pendSend{p: p, ch: ch, slot: op.O, t: e.topicOf(m)})
 			v.status[op.O] = 2
 		}
 		e.emit(hlib.App("OSend", n64(p), n64(op.C), n64(e.objOf(m)), hlib.Bool(op.Hi), modeTerm(op.Mode), out),
 			fmt.Sprintf("send#%d c%d slot%d hi=%v mode=%d -> %s", p, op.C, op.O, op.Hi, op.Mode, hum))
+		if hum == "SOther" {
+			e.panicked(1)
+		}
 	case "fill":
 		// n x (NewMessage; SendTimeout(msg,false,0)); every send must answer nil
 		o0, i0 := e.nobj, e.nid+1
@@ -111,8 +113,6 @@ func (e *exec) do(op Op, v *view) bool {
 			}
 			if err := e.cl[op.C].SendTimeout(m, false, 0); err != nil {
 				okAll = false
-			} else {
-				e.sentTo[op.T]++
 			}
 		}
 		n := op.N
@@ -146,15 +146,26 @@ func (e *exec) do(op Op, v *view) bool {
 		r := &v.recvd[op.N]
 		r.replied = true
 		done := make(chan struct{})
+		pan := make(chan struct{}, 1)
 		go func() {
+			defer func() {
+				if x := recover(); x != nil {
+					pan <- struct{}{}
+				}
+			}()
 			// the reply names the request the responder read from Recv
 			r.msg.Reply(queue.NewMessage(nextPlainID(), "", 2, r.realID))
 			close(done)
 		}()
 		ret := true
+		e.settle()
 		select {
+		case <-pan:
+			e.emit(hlib.App("OReply", n64(r.c), n64(r.obj), n64(r.id), "true"), "reply PANIC")
+			e.panicked(4)
+			return true
 		case <-done:
-		case <-time.After(blockWait):
+		default:
 			ret = false
 			e.dead = true
 			e.noteLeak()
@@ -175,12 +186,38 @@ func (e *exec) do(op Op, v *view) bool {
 		if op.Timed {
 			to = shortTO
 		}
+		pan := make(chan struct{}, 1)
 		go func() {
+			defer func() {
+				if x := recover(); x != nil {
+					pan <- struct{}{}
+				}
+			}()
 			r, err := cl.WaitTimeout(m, to)
 			ch <- wr{r, err}
 		}()
 		out, hum := "None", "BLOCKED"
+		e.settle()
+		tmo := make(chan time.Time) // never fires: not returned although everything is parked = blocked
+		var tm <-chan time.Time = tmo
+		if op.Timed {
+			tm = time.After(timerLimit) // the call has a timer: it must come back by itself
+		} else {
+			select {
+			case r := <-ch:
+				ch <- r // put it back for the select below
+			case x := <-pan:
+				pan <- x
+			default:
+				c0 := make(chan time.Time)
+				close(c0)
+				tm = c0
+			}
+		}
 		select {
+		case <-pan:
+			e.panicked(2)
+			return true
 		case r := <-ch:
 			switch {
 			case r.err == queue.ErrQueueTimeout:
@@ -208,7 +245,7 @@ func (e *exec) do(op Op, v *view) bool {
 			default:
 				out, hum = "(Some (WGot (RFor 0%N)))", fmt.Sprintf("unexpected %v %v", r.m, r.err)
 			}
-		case <-time.After(blockWait):
+		case <-tm:
 			e.dead = true
 			e.noteLeak()
 		}
@@ -219,14 +256,27 @@ func (e *exec) do(op Op, v *view) bool {
 		}
 		ch := make(chan bool, 1)
 		cl := e.cl[op.C]
-		go func() { cl.Close(); ch <- true }()
+		pan := make(chan struct{}, 1)
+		go func() {
+			defer func() {
+				if x := recover(); x != nil {
+					pan <- struct{}{}
+				}
+			}()
+			cl.Close()
+			ch <- true
+		}()
 		ret := true
+		e.settle()
 		select {
+		case <-pan:
+			e.panicked(3)
+			return true
 		case <-ch:
 			if e.subOf[op.C] >= 0 {
 				v.clClose[op.C] = true
 			}
-		case <-time.After(blockWait):
+		default:
 			ret = false
 			e.closeCh[op.C] = ch
 		}
@@ -248,26 +298,17 @@ func (e *exec) do(op Op, v *view) bool {
 	return true
 }
 
-// finish: sends still blocked at the end (after 3 s when the queue was closed).
+// finish: sends still parked at the end (looked at 3 s after the last call when the queue
+// was closed, see finalizeAll). A send that came back in the meantime although everything was
+// parked is reported with a negative number: the model cannot explain it.
 func (e *exec) finish(v *view) (still []int) {
-	if v.qClose && len(e.pend) > 0 {
-		deadline := time.Now().Add(stillWait)
-		for time.Now().Before(deadline) && len(e.pend) > 0 {
-			time.Sleep(50 * time.Millisecond)
-			keep := e.pend[:0]
-			for _, p := range e.pend {
-				select {
-				case <-p.ch: // completed late: the model would have had to predict it
-					still = append(still, -p.p)
-				default:
-					keep = append(keep, p)
-				}
-			}
-			e.pend = keep
-		}
-	}
 	for _, p := range e.pend {
-		still = append(still, p.p)
+		select {
+		case <-p.ch:
+			still = append(still, -p.p)
+		default:
+			still = append(still, p.p)
+		}
 	}
 	return still
 }
@@ -285,4 +326,46 @@ func (e *exec) hasSub(t int) bool {
 		}
 	}
 	return false
+}
+
+// settle waits until every goroutine is parked, without collecting completions of parked
+// calls (they stay in their channels and are collected by observe).
+func (e *exec) settle() {
+	start := time.Now()
+	okCount := 0
+	for okCount < 2 && time.Since(start) < settleLimit {
+		runtime.Gosched()
+		if allParked() {
+			okCount++
+		} else {
+			okCount = 0
+		}
+		pollPause()
+	}
+}
+
+// awaitCall: has the call returned once everything is parked? A call with its own timer is
+// waited for (it must come back by itself).
+func awaitCall(e *exec, ch chan sendRes, hasTimer bool) (sendRes, bool) {
+	e.settle()
+	if hasTimer {
+		select {
+		case r := <-ch:
+			return r, true
+		case <-time.After(timerLimit):
+			return sendRes{}, false
+		}
+	}
+	select {
+	case r := <-ch:
+		return r, true
+	default:
+		return sendRes{}, false
+	}
+}
+
+// panicked records a crashed API call; the scenario stops there.
+func (e *exec) panicked(k int) {
+	e.dead = true
+	e.emit(hlib.App("OPanic", n64(k)), fmt.Sprintf("PANIC in call kind %d", k))
 }
